@@ -2,7 +2,9 @@
 
 PROPERTIES = {
     "C04": dict(
-        modules=["solids"],
+        modules=["solids", "planar"],
+        # the cached bounded footprint handed to the mesh/footprint arms must cover the requested slab for every history
+        borrow=dict(modules=["regions"], match=["approxBoundFootprint"]),
         level="proof",
         claim=(
             "relative to the kernel axioms K-prism, K1-K8 (each written once, listed as trusted): every return of Object.intersects "
@@ -15,9 +17,10 @@ PROPERTIES = {
         not_reached=[
             "FCL / trimesh / shapely kernels (trusted)",
             "MeshVolumeRegion.intersects: MeshSurfaceRegion and PolygonalFootprintRegion arms; MeshSurfaceRegion.intersects",
-            "Object.minimumDistanceTo, Object._boundingPolygon (affine matrix), _isPlanarBox, MeshVolumeRegion._circumradius/_interiorPoint/_interiorPointRadii/_bodyCount (the helper values are axiomatised, incl. the suspected world-origin fallback of _circumradius, notes/recon/r10)",
+            "Object.minimumDistanceTo, Object._boundingPolygon (affine matrix), MeshVolumeRegion._interiorPoint/_interiorPointRadii/_bodyCount (the helper values are axiomatised); "
+            "MeshVolumeRegion._circumradius is under contract for the arm without a precomputed shape and Shape._circumradius for the per-shape radius, but the scaling/rigid-transform step between them is not",
             "PolygonalFootprintRegion.containsObject, GridRegion.containsObject",
         ],
-        bounded=["MeshVolumeRegion.containsObject: meshes of 2 vertices (symbolic coordinates)"],
+        bounded=["MeshVolumeRegion.containsObject: meshes of 2 vertices (symbolic coordinates)", "MeshVolumeRegion._circumradius: 2 vertices; Shape._circumradius: 2 vertices (symbolic coordinates)"],
     )
 }
